@@ -18,6 +18,8 @@ type c18Case struct {
 	Bits uint64 `json:"bits"`
 	// Via: "set" = SetFloat + StringCvt + MarshalJSON ; "parse" = parse a literal that rounds to the value, then marshal
 	Via string `json:"via"`
+	// Prev: bit patterns put into the other three array elements, so that one marshal call prints a sequence
+	Prev []uint64 `json:"prev,omitempty"`
 }
 
 // a reusable one-float document per goroutine is not needed: tests are single-goroutine.
@@ -27,7 +29,7 @@ type c18Env struct {
 }
 
 func newC18Env() (*c18Env, error) {
-	pj, err := simdjson.Parse([]byte(`[0.5]`), nil)
+	pj, err := simdjson.Parse([]byte(`[0.5,1.5,2.5,3.5]`), nil)
 	if err != nil {
 		return nil, err
 	}
@@ -35,6 +37,12 @@ func newC18Env() (*c18Env, error) {
 }
 
 var c18env *c18Env
+
+// the three values marshalled before the current one (zeros of both signs to start with)
+var c18defaultPrev = [3]float64{0, math.Copysign(0, -1), 0}
+
+// running history of the evaluator (part of every case, so that replays are pure)
+var c18hist = []uint64{0, 1 << 63, 0}
 
 func c18Check(c c18Case) error {
 	f := math.Float64frombits(c.Bits)
@@ -87,15 +95,35 @@ func c18Check(c c18Case) error {
 		if err != nil {
 			return fmt.Errorf("StringCvt(%x): %v", c.Bits, err)
 		}
+		// the other three elements hold the previous values of this run: one marshal call prints a sequence
+		seq := []float64{f}
+		for k := 0; k < 3; k++ {
+			tag = it.AdvanceInto()
+			if tag.Type() == simdjson.TypeNone {
+				return bugf("seed doc too short")
+			}
+			prev := c18defaultPrev[k]
+			if k < len(c.Prev) {
+				prev = math.Float64frombits(c.Prev[k])
+			}
+			if math.IsNaN(prev) || math.IsInf(prev, 0) {
+				prev = 0
+			}
+			if err := it.SetFloat(prev); err != nil {
+				return fmt.Errorf("SetFloat: %v", err)
+			}
+			seq = append(seq, prev)
+		}
 		rt := c18env.pj.Iter()
 		b, err := rt.MarshalJSON()
 		if err != nil {
 			return fmt.Errorf("MarshalJSON(%x): %v", c.Bits, err)
 		}
-		if len(b) < 2 || b[0] != '[' || b[len(b)-1] != ']' {
-			return fmt.Errorf("marshal gave %q", b)
+		wantSeq, _ := json.Marshal(seq)
+		if !bytes.Equal(b, wantSeq) {
+			return fmt.Errorf("marshalling the float sequence %v: got %s, encoding/json prints %s", seq, b, wantSeq)
 		}
-		got = string(b[1 : len(b)-1])
+		got = string(b[1:bytes.IndexByte(b, ',')])
 	}
 	if got != string(want) {
 		return fmt.Errorf("bits %#x: MarshalJSON printed %q, encoding/json prints %q", c.Bits, got, want)
@@ -192,8 +220,14 @@ func c18Eval(t *testing.T, bits uint64, via, class string) {
 	if math.IsNaN(f) || math.IsInf(f, 0) {
 		return
 	}
-	c := c18Case{Bits: bits, Via: via}
+	c := c18Case{Bits: bits, Via: via, Prev: append([]uint64(nil), c18hist...)}
 	c18Run(t, c)
+	if via == "set" {
+		c18hist[2], c18hist[1], c18hist[0] = c18hist[1], c18hist[0], bits
+		if bits<<1 != 0 && (bits>>7)%5 == 0 {
+			c18hist[1] = bits ^ 1<<63 // now and then the same magnitude with the other sign follows
+		}
+	}
 	cl := col("C18")
 	var hb [9]byte
 	for i := 0; i < 8; i++ {
